@@ -901,6 +901,14 @@ func init() {
 		}
 		return nil
 	}
+	natives["(*sync.Mutex).Lock"] = func(e *Engine, caller *frame, _ *ssa.Function, a []value) value {
+		if f := e.onLock; f != nil {
+			e.onLock = nil
+			e.call(caller, f, nil) // the message queued earlier is served first (see verifOnLock)
+		}
+		e.raceLock(a[0].(*value))
+		return nil
+	}
 	natives["sort.Slice"] = sliceSort
 	natives["sort.SliceStable"] = sliceSort
 }
